@@ -523,3 +523,125 @@ func FileLevelCells() []Cell {
 	}
 	return out
 }
+
+// ---- sets of component responses and several media types per content map ---------------------------
+
+func contentOf(kind string) (ct string, sc *spec.Schema) {
+	switch kind {
+	case "json":
+		return "", objAB()
+	case "text":
+		return "text/plain", spec.T("string")
+	case "octet":
+		return "application/octet-stream", spec.TF("string", "binary")
+	}
+	return "", nil
+}
+
+// RespSetCells: two component responses of different content kinds (the first sorts before the
+// second) used by one operation at two statuses or by two operations; no other JSON anywhere in the
+// document. Then responses and request bodies whose content map documents two media types.
+func RespSetCells() []Cell {
+	var out []Cell
+	kinds := []string{"json", "none", "text", "octet"}
+	for _, k1 := range kinds {
+		for _, k2 := range kinds {
+			if k1 == k2 {
+				continue
+			}
+			for _, usage := range []string{"one-op", "two-ops"} {
+				s, pi, op := Base()
+				mk := func(name, kind string) {
+					ct, sc := contentOf(kind)
+					s.Comp.Responses = append(s.Comp.Responses, spec.NamedResponse{Name: name, Response: &spec.Response{Desc: "r", ContentType: ct, Schema: sc}})
+				}
+				mk("Alpha", k1)
+				mk("Zulu", k2)
+				if usage == "one-op" {
+					op.Responses = []*spec.Response{{Status: "200", Ref: "Alpha"}, {Status: "404", Ref: "Zulu"}}
+				} else {
+					op.Responses = []*spec.Response{{Status: "200", Ref: "Alpha"}}
+					pi.Ops = append(pi.Ops, &spec.Op{Method: "POST", Responses: []*spec.Response{{Status: "201", Ref: "Zulu"}}})
+				}
+				out = append(out, NewCell("respset", map[string]string{"first": k1, "second": k2, "usage": usage}, s))
+			}
+		}
+	}
+	type mm struct {
+		name  string
+		first string // content kind of the primary entry
+		also  []spec.Media
+	}
+	mms := []mm{
+		{"json+xml", "json", []spec.Media{{ContentType: "application/xml", Schema: objAB()}}},
+		{"json+cbor", "json", []spec.Media{{ContentType: "application/cbor", Schema: spec.TF("string", "binary")}}},
+		{"json+text", "json", []spec.Media{{ContentType: "text/plain", Schema: spec.T("string")}}},
+		{"text+octet", "text", []spec.Media{{ContentType: "application/octet-stream", Schema: spec.TF("string", "binary")}}},
+		{"json+hal", "json", []spec.Media{{ContentType: "application/hal+json", Schema: objAB()}}},
+	}
+	for _, m := range mms {
+		for _, form := range []string{"inline", "component"} {
+			for _, status := range []string{"200", "default"} {
+				s, _, op := Base()
+				ct, sc := contentOf(m.first)
+				r := &spec.Response{Status: status, Desc: "r", ContentType: ct, Schema: sc, Also: m.also}
+				if form == "component" {
+					s.Comp.Responses = append(s.Comp.Responses, spec.NamedResponse{Name: "R", Response: r})
+					r = &spec.Response{Status: status, Ref: "R"}
+				}
+				op.Responses = []*spec.Response{r}
+				if status != "default" {
+					op.Responses = append(op.Responses, &spec.Response{Status: "default", Desc: "d"})
+				}
+				out = append(out, NewCell("multimedia", map[string]string{"site": "response", "content": m.name, "form": form, "status": status}, s))
+			}
+			s, _, op := Base()
+			op.Method = "POST"
+			ct, sc := contentOf(m.first)
+			b := &spec.Body{ContentType: ct, Schema: sc, Required: true, Also: m.also}
+			if form == "component" {
+				s.Comp.Bodies = append(s.Comp.Bodies, spec.NamedBody{Name: "B", Body: b})
+				b = &spec.Body{Ref: "B"}
+			}
+			op.Body = b
+			out = append(out, NewCell("multimedia", map[string]string{"site": "reqbody", "content": m.name, "form": form}, s))
+		}
+	}
+	return out
+}
+
+// RefOrderCells: a component schema that references another component sorting after it (forward) or
+// before it (backward) from each composite position; the referencing component is used as a response body.
+func RefOrderCells() []Cell {
+	var out []Cell
+	for _, dir := range []string{"forward", "backward"} {
+		for _, pos := range []string{"items", "property", "allof", "oneof", "addprops", "alias"} {
+			s, _, op := Base()
+			user, target := "Alpha", "Zulu"
+			if dir == "backward" {
+				user, target = "Zulu", "Alpha"
+			}
+			var sc *spec.Schema
+			switch pos {
+			case "items":
+				sc = spec.Arr(spec.RefTo(target))
+			case "property":
+				sc = spec.Obj(spec.P("t", spec.RefTo(target)), spec.P("n", spec.T("string")))
+			case "allof":
+				sc = &spec.Schema{AllOf: []*spec.Schema{spec.RefTo(target), spec.Obj(spec.P("c", spec.T("string")))}}
+			case "oneof":
+				addSchema(s, "Other", spec.Obj(spec.P("z", spec.T("string"))).Req("z"))
+				sc = &spec.Schema{OneOf: []*spec.Schema{spec.RefTo(target), spec.RefTo("Other")}}
+			case "addprops":
+				sc = &spec.Schema{Type: "object", Add: spec.RefTo(target)}
+			case "alias":
+				sc = spec.RefTo(target)
+			}
+			addSchema(s, user, sc)
+			addSchema(s, target, objAB())
+			op.Responses = []*spec.Response{{Status: "200", Desc: "r", Schema: spec.RefTo(user)}, {Status: "default", Desc: "d"}}
+			out = append(out, NewCell("reforder", map[string]string{"dir": dir, "pos": pos}, s))
+		}
+	}
+	return out
+}
